@@ -343,6 +343,31 @@ for _form in ('where', 'target', 'from'):
     make_in_nested(_form)
 
 
+@cond('C08.in.top-n', quick=240, thorough=600,
+      bounds='outer table t of 1 row (a symbolic int), inner table u of exactly 3 rows (c, d symbolic ints, d pairwise distinct); '
+             'a [NOT] IN (SELECT c FROM #u ORDER BY d [DESC] LIMIT n), n in 0..3: membership in the top-n rows (the inner ORDER BY '
+             'decides which rows the LIMIT keeps)',
+      symbolic='all cells, direction, negation', enumerated='n', group='C08.in',
+      params={'a': int, 'c0': int, 'c1': int, 'c2': int, 'd0': int, 'd1': int, 'd2': int, 'n': int, 'desc': bool, 'neg': bool})
+def in_top_n(a, c0, c1, c2, d0, d1, d2, n, desc, neg):
+    n = enum_int(n, 0, 3)
+    assume(d0 != d1 and d1 != d2 and d0 != d2)
+    tcols = [('a', int)]
+    trows, urows = [(a,)], [(c0, d0), (c1, d1), (c2, d2)]
+    conn = connect(t=HTable('t', tcols, trows), u=HTable('u', UCOLS, urows))
+    sub = sel([target(col('c'))], 'u', order_by=[ast.OrderBy(col('d'), ast.Ordering.DESC if desc else ast.Ordering.ASC)], limit=n)
+    stmt = sel([target(col('a'), 'a'), target((ast.NotIn if neg else ast.In)(col('a'), sub), 'r')], 't')
+    text = native(print_select, stmt)
+    got = conn.execute(parse(text)).fetchall()
+    # written out: the n rows of u with the smallest (largest) d
+    kept = sorted(urows, key=lambda r: r[1], reverse=bool(desc))[:n]
+    member = None if not kept else (a in [r[0] for r in kept])
+    want = [(a, None if member is None else (member != bool(neg)))]
+    if not same_rows(got, want):
+        return 'membership-in-the-top-n-rows'
+    return 'ok'
+
+
 DEC_CELLS = [None, 0, 1, 2]
 
 
